@@ -226,7 +226,8 @@ Proof. exact ex_md_settled. Qed.
 Example C02_fixpoint_calm_nonvacuous :
   forallb (gcalm ex_ctx (key_parent ex_key) ex_opts) ex_written = true /\
   forallb (gcalm ex_ctx "" ex_opts) [GPara [Str "a"; Str " "; Str "b"]; GPara [Link "http://x" "t" Regular [Str "y"]]] = true /\
-  gcalm ex_ctx "" (Opts "") (GPara [Str "see "; Link "a.md" "" Regular [Str "x"]]) = false.
+  gcalm ex_ctx "" (Opts "") (GPara [Str "see "; Link "a.md" "" Regular [Str "x"]]) = true /\
+  gcalm ex_ctx "" (Opts ".txt") (GPara [Str "see "; Link "a" "" Regular [Str "x"]]) = false.
 Proof. exact ex_calm. Qed.
 (* ... and by a note whose list items have no text: a quote, a rule, a code block, a list with more blocks
    after it, each written right after the item marker (ReparseFacts.ex2_written_text) *)
